@@ -407,8 +407,22 @@ func c15Hash(p *Prog, c *Check, sp syncerSpec) {
 		ok := num != nil && hash != nil && ParsePat("Bytes(Hash(HeaderByNumber(_, _, SetUint64(_, $end))#0))").Match(hash, b) && ParsePat("$end").Match(num, b)
 		if ok {
 			// $end is the range end parameter of syncRange (captured)
-			e := b["end"]
-			ok = e.K == TParam || (e.K == TVar && strings.Contains(e.Name, "free:end")) || strings.Contains(e.s, "end")
+			// $end is the range-end parameter of syncRange (possibly captured by the transaction closure):
+			// the last integer parameter, the one also handed to the event query as the upper bound
+			e := b["end"].freeToParams()
+			ok = false
+			var endPrm *ssa.Parameter
+			for _, prm := range fn.Params {
+				if bt, isB := prm.Type().Underlying().(*types.Basic); isB && bt.Info()&types.IsInteger != 0 {
+					endPrm = prm
+				}
+			}
+			for e.K == TConv && len(e.Sub) == 1 {
+				e = e.Sub[0]
+			}
+			if endPrm != nil && e.K == TParam && e.Name == endPrm.Name() {
+				ok = true
+			}
 		}
 		c.Result(ok, rule, key, p.siteOf(site), shortFn(f), "stored (number, hash)", "the stored hash is not Hash() of the header fetched by HeaderByNumber for the stored block number: number="+termStr(num)+" hash="+termStr(hash), "hash = HeaderByNumber(end).Hash(), number = end")
 	}
